@@ -3,6 +3,7 @@ use crate::{
     passes::{CfgError, GenerationPass},
 };
 use std::collections::HashSet;
+use std::rc::Rc;
 
 use super::HasGenKillInfo;
 
@@ -120,7 +121,14 @@ impl GenerationPass for LivenessPass {
                         | node.kill_reg();
 
                     // live_in[n] = gen[n] U (live_out[n] - kill[n])
-                    let live_in = (node.live_out() - node.kill_reg()) | node.gen_reg();
+                    let mut live_in = (node.live_out() - node.kill_reg()) | node.gen_reg();
+
+                    // When two functions share their returns, the exit of one of them
+                    // has been turned into a jump. Like a return, it must keep what its
+                    // call sites added, or the two updates undo each other forever.
+                    if node.functions().iter().any(|f| Rc::ptr_eq(&f.exit(), &node)) {
+                        live_in = live_in | node.live_in();
+                    }
 
                     changed |= node.set_live_in(live_in);
                     changed |= node.set_u_def(u_def);
